@@ -38,7 +38,7 @@ TIERS = {
                   variants=["plain", "asan", "assert"], extra_variant_fixtures=["min", "ortho", "auto"],
                   mc=["min", "comp", "util", "selutil"], mc_pair=["min"], systematic={"auto": 2, "ortho": 1}),
     "thorough": dict(fixtures=["min", "comp", "ortho", "strat", "auto", "peers", "oroot", "wide", "plan", "selpeers", "util", "plancap", "bare", "floaty", "utilortho", "selutil"],
-                     records=12000, chunks=12, variants=["plain", "asan", "assert", "dev", "plain11"], mc=["min", "comp", "ortho", "oroot", "util", "peers", "selutil", "utilortho"], mc_pair=["min", "comp", "ortho"],
+                     records=12000, chunks=12, variants=["plain", "asan", "assert", "dev", "plain11"], mc=["min", "comp", "ortho", "oroot", "util", "peers", "selutil", "utilortho"], mc_pair=["min", "comp", "ortho"], mc_budget=300,
                      systematic={"min": 12, "comp": 10, "ortho": 8, "strat": 6, "auto": 10, "peers": 6, "oroot": 8, "plan": 6}),
 }
 
@@ -168,12 +168,13 @@ def mc_results(tier, log=print):
     out = dict(key=key, tier=tier, models=[])
     for fxname in cfg["mc"]:
         fx = fixture(fxname)
-        r = mc.run(fx, tier, dev=open_switches(), timeout=3000 if tier == "thorough" else 900)
+        # quick models are run to completion; thorough ones get a time budget (TLC reports what it covered)
+        r = mc.run(fx, tier, dev=open_switches(), timeout=900, budget=cfg.get("mc_budget"))
         tail = ""
         if not r["ok"]:
             i = r["out"].find("Error:")
             tail = r["out"][i:i + 3000]
-        out["models"].append(dict(fixture=fxname, ok=r["ok"], violated=r["violated"], stats=r["stats"], secs=r["secs"],
+        out["models"].append(dict(fixture=fxname, ok=r["ok"], complete=r["complete"], violated=r["violated"], stats=r["stats"], secs=r["secs"],
                                   menu={k: (v if not isinstance(v, list) else len(v)) for k, v in r["menu"].items()},
                                   error=tail, props=mc.PROPS + mc.INVS))
         shutil.rmtree(r["dir"], ignore_errors=True)
@@ -182,12 +183,12 @@ def mc_results(tier, log=print):
     for fxname in cfg.get("mc_pair", []):
         fx = fixture(fxname)
         props, invs = ["P_Load", "P_SaveUntouched"], ["RoundTrip", "WellFormedState"]
-        r = mc.run(fx, tier, dev=open_switches(), timeout=3000 if tier == "thorough" else 900, menu=mc.pair_menu(fx), props=props, invs=invs)
+        r = mc.run(fx, tier, dev=open_switches(), timeout=900, budget=cfg.get("mc_budget"), menu=mc.pair_menu(fx), props=props, invs=invs)
         tail = ""
         if not r["ok"]:
             i = r["out"].find("Error:")
             tail = r["out"][i:i + 3000]
-        out["models"].append(dict(fixture=fxname + "/pair", ok=r["ok"], violated=r["violated"], stats=r["stats"], secs=r["secs"],
+        out["models"].append(dict(fixture=fxname + "/pair", ok=r["ok"], complete=r["complete"], violated=r["violated"], stats=r["stats"], secs=r["secs"],
                                   menu={k: (v if not isinstance(v, list) else len(v)) for k, v in r["menu"].items()}, error=tail, props=props + invs))
         shutil.rmtree(r["dir"], ignore_errors=True)
         log("mc %s/pair: %s %s %.0fs" % (fxname, "ok" if r["ok"] else "FAILED", r["stats"], r["secs"]))
@@ -435,7 +436,7 @@ def behavioural(pid, tier, out, extra_tags=(), accept=None):
             elif not mdl["ok"] and not mdl["violated"]:
                 out.machinery.append("TLC failed on model %s: %s" % (mdl["fixture"], mdl["error"][:300]))
         out.coverage["mc_models"] = [dict(fixture=m["fixture"], states=m["stats"].get("distinct"), transitions=m["stats"].get("generated"),
-                                          depth=m["stats"].get("depth"), properties=MC_PROPS[pid], secs=round(m["secs"], 1)) for m in mcr["models"]]
+                                          depth=m["stats"].get("depth"), exhausted=m.get("complete", True), properties=MC_PROPS[pid], secs=round(m["secs"], 1)) for m in mcr["models"]]
     out.coverage.update(dict(
         states=max(states, 1), transitions=max(transitions, 1),
         traces_validated_against_impl=sum(len(r["files"]) for r in camp["runs"]),
